@@ -546,8 +546,13 @@ def mc_fpself(ctx):
 
 def _fp(ctx, family):
     ctx.assumptions += FP_ASSUME
-    _with_mc(ctx, lambda: (mc_fpself(ctx), mc_avel(ctx) if family == 'fround' else None),
-             lambda: runner.lane_facts(ctx, 'drv_fp.cpp', family, FP_GROUPS))
+    def conf():
+        runner.lane_facts(ctx, 'drv_fp.cpp', family, FP_GROUPS)
+        if family in ('farith', 'fround'):
+            # float register programs with fesetround steps in between: every lane judged under the rounding mode
+            # the specification's own state holds at that point (composed machine, TraceAvel.tla)
+            prog_traces(ctx)
+    _with_mc(ctx, lambda: (mc_fpself(ctx), mc_avel(ctx) if family == 'fround' else None), conf)
 
 
 def c10(ctx):
